@@ -32,7 +32,7 @@ def generate(ctx):
     rng = ctx.rng
     cases = [dict(iglib.rand_chain_ig(rng) if rng.random() < 0.3 else iglib.rand_ig(rng), op="is_empty",
                   perm_seed=rng.randrange(10**6)) for _ in range(n)]
-    for _ in range(n // 3):              # intersection with a regular language
+    for _ in range(min(n // 3, 400)):    # intersection with a regular language (the reference oracle runs in this process: keep it bounded)
         c = dict(iglib.rand_chain_ig(rng) if rng.random() < 0.4 else iglib.rand_ig(rng, max_nt=3, max_rules=5), op="inter",
                  operator=rng.random() < 0.3)
         k = rng.random()
@@ -134,7 +134,7 @@ def _check_inter(ctx, c, o):
 def check_cases(ctx, cases):
     inter = [c for c in cases if c.get("op") == "inter"]
     if inter:
-        for c, o in zip(inter, ctx.impl("c17", inter, timeout=6)):
+        for c, o in zip(inter, ctx.impl("c17", inter, timeout=6, retry=False)):
             _check_inter(ctx, c, o)
     cases = [c for c in cases if c.get("op") != "inter"]
     obs = ctx.impl("c17", cases, timeout=30)
